@@ -811,6 +811,10 @@ func init() {
 func ruleR14_7(r *Run) {
 	w := r.W
 	sb := w.method("datatype/common/labels", "Block", "setBlank")
+	if sb == nil {
+		// the single-use shortcut may have been inlined into its caller
+		sb = w.method("datatype/common/labels", "Block", "Downres")
+	}
 	slow := w.method("datatype/common/labels", "Block", "DownresSlow")
 	if sb == nil || slow == nil {
 		r.violation("labels.Block.setBlank/DownresSlow", "not found", "-")
